@@ -55,6 +55,12 @@ def sorted_rep(y, z):
     return z3.ForAll([k, l], z3.Implies(z3.And(0 <= k, k <= l, l < BINSIZE(y, z)), BINX(y, z, k) <= BINX(y, z, l)))
 
 
+def sorted_all():
+    y, z, k, l = z3.Ints("y! z! k! l!")
+    return z3.And(z3.ForAll([y, z, k, l], z3.Implies(z3.And(0 <= k, k <= l, l < BINSIZE(y, z)), BINX(y, z, k) <= BINX(y, z, l))),
+                  z3.ForAll([y, z], BINSIZE(y, z) >= 0))
+
+
 def voxels(c, **fields):
     o = StructObj("Voxels", bins=Bins(), **fields)
     o.record = "Voxels"
@@ -98,3 +104,138 @@ def binary_search(ctx, which):
 
 
 contract("C10", FILE, "Voxels::findLowerBound;findUpperBound", cases=["findLowerBound", "findUpperBound"], lang="c", replay="neighborlist", covers=["returned"])(binary_search)
+
+
+# ---- getNeighbors, no periodic cell: completeness and soundness for an arbitrary pair ------------------------------------------------------
+class Neighbors:
+    """the output vector<int>&: a ghost flag records whether the probe atom J was appended; every append is checked"""
+
+    def __init__(self, ex, J, on_push):
+        self.ex, self.J, self.on_push = ex, J, on_push
+        self.found = z3.BoolVal(False)
+        self.count = SInt(z3.IntVal(0))
+
+    def c_method(self, interp, name, args):
+        if name == "resize" and args[0] == 0:
+            self.found = z3.BoolVal(False)
+            return None
+        if name == "push_back":
+            self.on_push(args[0])
+            self.found = z3.simplify(z3.Or(self.found, term(args[0]) == self.J.t))
+            return None
+        raise core.Unsupported(f"neighbors.{name}")
+
+
+def get_neighbors_nonperiodic(ctx, case):
+    ex = ctx.ex
+    c = ctx.load_c(FILE, ["_compute_neighborlist"], **INC)
+    ctx.load_records(FILE, ["Voxels", "VoxelIndex"], include=INC["include"])
+    xyz = Region("atomLocations")
+    box, bsz, rsz = Region("periodicBoxVectors"), Region("periodicBoxSize"), Region("recipBoxSize")  # not initialised without a cell: arbitrary
+    I, J, d = ctx.int("i"), ctx.int("j"), ctx.real("maxDistance")
+    vy, vz, miny, minz, ny, nz = ctx.real("voxelSizeY"), ctx.real("voxelSizeZ"), ctx.real("miny"), ctx.real("minz"), ctx.int("ny"), ctx.int("nz")
+    P = lambda a, k: z3.Select(xyz.mem, 3 * a + k)
+    YI, ZI, YJ, ZJ, S = ctx.int("Yi"), ctx.int("Zi"), ctx.int("Yj"), ctx.int("Zj"), ctx.int("slot_j")
+    ctx.assume(d > 0, vy > 0, vz > 0, ny >= 1, nz >= 1, I >= 0, J >= 0, J < I)
+
+    def in_voxel(a, Y, Z):
+        # what the constructor and getVoxelIndex establish without a cell (contract `get_voxel_index`): the atom lies in its closed voxel
+        return z3.And(0 <= Y.t, Y.t < ny.t, 0 <= Z.t, Z.t < nz.t,
+                      z3.ToReal(Y.t) * vy.t <= P(a, 1) - miny.t, P(a, 1) - miny.t <= (z3.ToReal(Y.t) + 1) * vy.t,
+                      z3.ToReal(Z.t) * vz.t <= P(a, 2) - minz.t, P(a, 2) - minz.t <= (z3.ToReal(Z.t) + 1) * vz.t)
+    ctx.assume(in_voxel(I.t, YI, ZI), in_voxel(J.t, YJ, ZJ))
+    # representation invariant: atom j sits in a slot of the bin of its voxel, with its x coordinate; bins are sorted by x
+    ctx.assume(0 <= S.t, S.t < BINSIZE(YJ.t, ZJ.t), BINA(YJ.t, ZJ.t, S.t) == J.t, BINX(YJ.t, ZJ.t, S.t) == P(J.t, 0))
+    dist2 = sum((P(J.t, k) - P(I.t, k)) * (P(J.t, k) - P(I.t, k)) for k in range(3))
+    within = dist2 < d.t * d.t
+
+    def on_push(index):
+        k = term(index)
+        d2 = sum((P(k, q) - P(I.t, q)) * (P(k, q) - P(I.t, q)) for q in range(3))
+        ex.require("soundness:a-reported-atom-has-a-smaller-index(no-duplicates,not-itself)", k < I.t)
+        ex.require("soundness:a-reported-atom-is-within-the-cutoff", d2 <= d.t * d.t)
+    nb = Neighbors(ex, J, on_push)
+    v = voxels(c, voxelSizeY=vy, voxelSizeZ=vz, miny=miny, minz=minz, ny=ny, nz=nz, periodicBoxSize=Ptr(bsz, 0), recipBoxSize=Ptr(rsz, 0), triclinic=False,
+               periodicBoxVectors=Ptr(box, 0), usePeriodic=False)
+    avi = StructObj("VoxelIndex", y=YI, z=ZI)
+    avi.record = "VoxelIndex"
+
+    # callee contracts (proved above for every bin and window) at the two call sites
+    def bound_model(which):
+        def model(interp, args):
+            _, y, z, x, lo, up = args
+            y, z, x, lo, up = term(y), term(z), rterm(x), term(lo), term(up)
+            ex.require(f"call:{which}:window-inside-the-bin", z3.And(0 <= lo, lo <= up, up <= BINSIZE(y, z)))
+            r = z3.Int(core.fresh_name(which))
+            k = z3.Int("k!")
+            before = (BINX(y, z, k) < x) if which == "findLowerBound" else (BINX(y, z, k) <= x)
+            after = (BINX(y, z, k) >= x) if which == "findLowerBound" else (BINX(y, z, k) > x)
+            ex.assume(z3.And(lo <= r, r <= up, z3.ForAll([k], z3.Implies(z3.And(lo <= k, k < r), before)), z3.ForAll([k], z3.Implies(z3.And(r <= k, k < up), after))))
+            return SInt(r)
+        return model
+    c.call_models["Voxels::findLowerBound"] = bound_model("findLowerBound")
+    c.call_models["Voxels::findUpperBound"] = bound_model("findUpperBound")
+
+    entry = {}
+    g = {}
+
+    def fresh_found(tag):
+        nb.found = z3.Bool(core.fresh_name("found@" + tag))
+
+    def mono(tag, gh):
+        if gh.get("entry"):
+            entry[tag] = nb.found
+            return []
+        return [("already-found-stays-found", z3.Implies(entry[tag], nb.found))]
+
+    # z loop
+    def z_havoc(interp, env, gh):
+        fresh_found("z")
+        vi = interp.getvar(env, "voxelIndex")
+        vi.fields["y"], vi.fields["z"] = SInt(z3.Int(core.fresh_name("vi.y"))), SInt(z3.Int(core.fresh_name("vi.z")))
+        return []
+
+    def z_inv(interp, env, gh):
+        z = term(interp.getvar(env, "z"))
+        sz = term(interp.getvar(env, "startz"))
+        return mono("z", gh) + [("voxel-layers-below-z-are-done", z3.Implies(z3.And(within, sz <= ZJ.t, ZJ.t < z), nb.found))]
+
+    def y_havoc(interp, env, gh):
+        fresh_found("y")
+        vi = interp.getvar(env, "voxelIndex")
+        vi.fields["y"] = SInt(z3.Int(core.fresh_name("vi.y")))
+        return []
+
+    def y_inv(interp, env, gh):
+        z, y, sy = term(interp.getvar(env, "z")), term(interp.getvar(env, "y")), term(interp.getvar(env, "starty"))
+        return mono("y", gh) + [("voxel-rows-below-y-are-done", z3.Implies(z3.And(within, z == ZJ.t, sy <= YJ.t, YJ.t < y), nb.found))]
+
+    def i_havoc(interp, env, gh):
+        fresh_found("item")
+        return []
+
+    def i_inv(interp, env, gh):
+        z, y, item = term(interp.getvar(env, "z")), term(interp.getvar(env, "y")), term(interp.getvar(env, "item"))
+        rs = interp.getvar(env, "rangeStart")
+        rs0 = term(rs.region.local[0]) if getattr(rs, "region", None) is not None and rs.region.local is not None else term(rs[0])
+        return mono("item", gh) + [("slots-before-item-are-done", z3.Implies(z3.And(within, z == ZJ.t, y == YJ.t, rs0 <= S.t, S.t < item), nb.found))]
+
+    c.loop_specs[("Voxels::getNeighbors", 0)] = CLoopSpec(z_havoc, z_inv)
+    c.loop_specs[("Voxels::getNeighbors", 1)] = CLoopSpec(y_havoc, y_inv)
+    c.loop_specs[("Voxels::getNeighbors", 3)] = CLoopSpec(i_havoc, i_inv)
+    def decl_hook(interp, env, name, val):
+        if name == "dSquared":
+            # assert-then-assume: the value compared with the cutoff is the squared distance between atom `index` and the centre atom
+            k = term(interp.getvar(env, "index"))
+            d2 = sum((P(k, q) - P(I.t, q)) * (P(k, q) - P(I.t, q)) for q in range(3))
+            ex.require("item:dSquared-is-the-squared-distance-to-the-centre-atom", rterm(val) == d2)
+            ex.assume(rterm(val) == d2)
+        return val
+    c.decl_hook = decl_hook
+    ctx.assume(sorted_all())
+    c.call_record_method(v, "getNeighbors", [nb, I, d, Ptr(xyz, 0), avi])
+    ctx.cover("returned")
+    ctx.ensure("completeness:atom-j-within-the-cutoff-is-reported", z3.Implies(within, nb.found))
+
+
+contract("C10", FILE, "Voxels::getNeighbors(no-cell)", lang="c", replay="neighborlist", covers=["returned"], max_paths=200)(get_neighbors_nonperiodic)
